@@ -153,7 +153,9 @@ def plot_result(args: argparse.Namespace, result: Result, traj_ref: PosePath3D,
 
     logger.debug(SEP)
     logger.debug("Plotting results... ")
-    plot_mode = plot.PlotMode(args.plot_mode)
+    # The default is looked up here and not when the parser is built, a config
+    # file (-c) may override the setting in between.
+    plot_mode = plot.PlotMode(args.plot_mode or SETTINGS.plot_mode_default)
 
     # Plot the raw metric values.
     fig1 = plt.figure(figsize=SETTINGS.plot_figsize)
